@@ -1728,4 +1728,86 @@ def collBranch : Mode → String
   | .onehot => "flat"
   | .onehotTuple => "as_onehot"
 
+/-! ## Phase 6: constructor calls with arguments left out (option handling of Sparsify / Densify / Repr / Cycle and of the Environments shortcuts) -/
+
+/-- who builds the filter object: the class itself (`Sparsify(...)`) or the `Environments` shortcut (`envs.sparse(...)`) -/
+inductive Ctor where
+  | filter | env
+  deriving Repr, DecidableEq, Inhabited
+
+/-- `Sparsify.__init__(context=True, action=False)` and `Environments.sparse(context=True, action=False)` -/
+def sparsifyDefaults : Ctor → Bool × Bool
+  | .filter => (true, false)
+  | .env => (true, false)
+
+/-- `Densify.__init__(…, context=True, action=False)` and `Environments.dense(n_feats, method, context=True, action=False)` -/
+def densifyFlagDefaults : Ctor → Bool × Bool
+  | .filter => (true, false)
+  | .env => (true, false)
+
+/-- `Densify.__init__(n_feats=400, method='lookup', …)` (the shortcut has no default for these two) -/
+def densifyDefaultN : Nat := 400
+def densifyDefaultMethod : String := "lookup"
+
+/-- the method names `Densify` documents (`Literal['lookup','hashing']`) -/
+def densifyMethodNames : List String := ["lookup", "hashing"]
+
+/-- `_make_dense`: `if self._method == 'lookup': … else: <crc32>` — every name but `'lookup'` hashes -/
+def methodBranch (m : String) : String := if m == "lookup" then "lookup" else "hashing"
+
+/-- the parser of method names (used by the driver) -/
+def methodOfName (m : String) (prior : List String) (tbl : List (String × Nat)) : DMethod :=
+  if methodBranch m == "lookup" then .lookup prior else .hashing tbl
+
+/-- `Repr.__init__(categorical_context=None, categorical_actions=None)`; `Environments.repr(cat_context="onehot", cat_actions="onehot")` -/
+def reprDefaults : Ctor → Option Mode × Option Mode
+  | .filter => (none, none)
+  | .env => (some .onehot, some .onehot)
+
+/-- `Cycle.__init__(after=0)` -/
+def cycleDefaultAfter : Nat := 0
+
+/-- `Sparsify(...)` / `envs.sparse(...)` with any of the arguments left out (`none`) -/
+def mkSparsify (k : Ctor) (c a : Option Bool) : Step :=
+  .sparsify (c.getD (sparsifyDefaults k).1) (a.getD (sparsifyDefaults k).2)
+
+/-- `Densify(...)` / `envs.dense(...)` with any of the arguments left out -/
+def mkDensify (k : Ctor) (n : Option Nat) (m : Option String) (c a : Option Bool) (prior : List String) (tbl : List (String × Nat)) : Step :=
+  .densify (n.getD densifyDefaultN) (methodOfName (m.getD densifyDefaultMethod) prior tbl)
+    (c.getD (densifyFlagDefaults k).1) (a.getD (densifyFlagDefaults k).2)
+
+/-- `Repr(...)` / `envs.repr(...)` with any of the two modes left out (`some none` = an explicit `None`) -/
+def mkRepr (k : Ctor) (cc ca : Option (Option Mode)) : Step :=
+  .repr (cc.getD (reprDefaults k).1) (ca.getD (reprDefaults k).2)
+
+/-- `Cycle(...)` with `after` left out -/
+def mkCycle (after : Option Nat) : Step := .cycle (after.getD cycleDefaultAfter)
+
+/-- everything of an interaction but its context -/
+def nonContext (I : Inter) : Option (List Val) × Option Val × Option Rew × Option Rew × Option Rat × Option Rat :=
+  (I.actions, I.action, I.rewards, I.feedbacks, I.reward, I.probability)
+
+/-! ## Phase 6: histories of reads of one filter object -/
+
+/-- a history of reads of ONE filter object (each entry is what one `filter()` call was given before it ended: a complete sequence, or the
+items an aborted / abandoned read got to): the state the object is left in -/
+def runObjHistory (cfg : Cfg) (st : Step) : DState → List (List Inter) → Except Err DState
+  | T, [] => .ok T
+  | T, A :: rest => match runPrimObj cfg st T A with
+    | .error e => .error e
+    | .ok (_, T1) => runObjHistory cfg st T1 rest
+
+/-- the keys a Densify object was asked for over a whole history, in order -/
+def historyKeys (c a : Bool) : List (List Inter) → List String
+  | [] => []
+  | A :: rest => keysAsked c a A ++ historyKeys c a rest
+
+/-- the object after a history of reads, applied to `B`: what `B` gives -/
+def runObjAfter (cfg : Cfg) (st : Step) (T : DState) (hist : List (List Inter)) (B : List Inter) : Except Err (List Inter) :=
+  match runObjHistory cfg st T hist with
+  | .error e => .error e
+  | .ok T' => match runPrimObj cfg st T' B with
+    | .ok (b, _) => .ok b
+    | .error e => .error e
+
 end Coba.C10
